@@ -173,7 +173,9 @@ EVALUATORS = {"quote": eval_quote}
 
 REDUCED = ["a", "7", "~", "%41", "%7e", "%2E", "é", "%C3%A9", "%c3%a9", " ", "%20", "%2F", "%3F", "%23", "%26",
            "%3D", "%40", "%3A", "%25", "%2B", "%2541", "%", "%4", "%zz", "%٣٤", "%E9", "%C3", "%C2%80", "%00", "%0A",
-           "%7F", "+", "/", "?", "#", "&", "=", ":", "@", "1", "F", "\n", "%E2%82"]
+           "%7F", "+", "/", "?", "#", "&", "=", ":", "@", "1", "F", "\n", "%E2%82",
+           # literal text that looks like the *notation* of a byte (a decoder that marks undecodable bytes in-band must not take it for one)
+           "\\xe9", "\\x41", "\\", "\\ufffd", "\ufffd"]
 FULL = sorted({t for _, t in FLAT} | set(RAW_EXTRA))
 
 
